@@ -251,8 +251,8 @@ func c04Depth(c *Ctx) {
 		c.Fail(rule, "storage/mkvs/node.Depth", "", "the key depth type was not found (unresolved anchor)")
 		return
 	}
-	// does Insert bound the key length? (a branch on len(key) against a constant that leads to an error return)
-	limited := false
+	// does Insert bound the key length? (a branch on len(key) against a constant that leads to an error return): the
+	// depth an honest tree can reach is then bounded by that many bits
 	if fn := c.needFn(rule, "storage/mkvs.(*tree).Insert"); fn != nil {
 		c.Analysed[fname(fn)] = true
 		for _, b := range fn.Blocks {
@@ -263,13 +263,14 @@ func c04Depth(c *Ctx) {
 			if bo, ok := ifi.Cond.(*ssa.BinOp); ok {
 				s := vstr(bo)
 				if strings.Contains(s, "len(param:key)") {
-					if _, isK := constInt(bo.Y); isK {
-						limited = true
+					if k, isK := constInt(bo.Y); isK && k > 0 && k*8 < maxBits {
+						maxBits = k * 8
 					}
 				}
 			}
 		}
 	}
+	limited := false
 	pos := ""
 	if pk := c.P.Pkg("storage/mkvs/syncer"); pk != nil {
 		if o := pk.Types.Scope().Lookup("maxProofDepth"); o != nil {
